@@ -642,10 +642,12 @@ func (w *World) stream(full string, md protoreflect.MethodDescriptor, stream grp
 			}
 		case "header":
 			if yield("h.header") {
-				if err := stream.SetHeader(w.sharedMD()); err != nil {
+				// (on a stream that has been cancelled already - a backend
+				// stream whose proxy gave up - the refusal is the transport's)
+				if err := stream.SetHeader(w.sharedMD()); err != nil && ctx.Err() == nil {
 					l.HelperErr = err
 				}
-				if err := stream.SetHeader(metadata.Pairs("x-sim-hdr", strconv.Itoa(rs.spec.ID))); err != nil {
+				if err := stream.SetHeader(metadata.Pairs("x-sim-hdr", strconv.Itoa(rs.spec.ID))); err != nil && ctx.Err() == nil {
 					l.HelperErr = err
 				}
 			}
